@@ -24,6 +24,7 @@ CONSTANTS
   Denied <- MCNoDenied
   Toks = {"none", "even", "bogus", "c1", "c2"}
   ResvTO = 30
+  QuotaDenied = {}
   MaxDepth = 6
 CONSTRAINT DepthBound
 INVARIANTS TypeOK C01_NeverInstalled NoOrphans C08_Bijection C08_Range C19_ReservedOnce
